@@ -314,9 +314,11 @@ fn check_declared_parcelables(
             .fold(HashMap::new(), |mut map, declared_parcelable| {
                 let qualified_name = declared_parcelable.get_qualified_name();
 
+                // Note: when several imports conflict, report the smallest one (the iteration order of the map is random)
                 if let Some((_, conflicting_import)) = imports
                     .iter()
-                    .find(|(_, import)| import.name == declared_parcelable.name)
+                    .filter(|(_, import)| import.name == declared_parcelable.name)
+                    .min_by_key(|(qualified_name, _)| qualified_name.as_str())
                 {
                     diagnostics.push(Diagnostic {
                         kind: DiagnosticKind::Error,
